@@ -308,6 +308,19 @@ func genC13(r *Rng, tier string, emit func(Case)) {
 		d := genItems(r, N)
 		e("gcs", "allP", key, itoa(P), u64s(M), d, genQueries(r, d, N))
 	}
+	// tiny sets whose range N*M exceeds 2^P: the first value or a gap can need the maximal unary run floor(N*M/2^P)
+	for i := 0; i < 60; i++ {
+		P := r.Pick(19, 19, 10, 5, 1, 16)
+		M := uint64(784931)
+		if P != 19 {
+			// M between 2^P and 8*2^P and NOT a multiple of 2^P, so that the top bucket of the range is partial
+			// M between 1.5*2^P and 2*2^P: with N = 1 the top (partial) bucket [2^P, M) holds a third to a half of the range
+			M = uint64(1)<<uint(P) + uint64(1)<<uint(P-1) + r.U64()%(uint64(1)<<uint(P-1))
+		}
+		N := r.Pick(1, 1, 1, 2, 3)
+		d := genItems(r, N)
+		e("gcs", "tiny", hx(r.Bytes(16)), itoa(P), u64s(M), d, d+";"+genQueries(r, d, N))
+	}
 	for i := 0; i < n; i++ {
 		P := r.Intn(33)
 		M := pickM(r, P)
